@@ -527,15 +527,23 @@ class KHandle:
         self.pos = z3.simplify(self.pos)
         return S(self.pos)
 
-    def readline(self):
+    def readline(self, size=-1):
         ctx = core.cur()
         self.nreadline = getattr(self, 'nreadline', 0) + 1
         if self.nreadline > 64:
             # a scan that never reaches the end of the file (only possible on an inconsistent path)
             ctx.flag('K-file: more than 64 header reads on one handle at %s' % self.kf.name)
             return b''
+        capped = size is not None and not (isinstance(size, int) and size < 0)
         for f in self.kf.fabs:
             if ctx.decide(self.pos == f.start):
+                if capped and not ctx.decide(f.hlen.t <= I(size)):
+                    # readline(size) with a header line longer than size bytes (the header length is symbolic, 20..400): the
+                    # first size bytes come back, without the newline.  Where exactly the cut falls inside the numbers is not
+                    # modelled (their widths are unknown): the constant descriptor and the opening of the index part remain
+                    self.pos = z3.simplify(f.start + I(size))
+                    ctx.note('readline(%s) cut a FAB header line of %s' % (size, f.name))
+                    return f.header()[:58] + b'(('
                 self.pos = z3.simplify(f.start + f.hlen.t)
                 return f.header()
         if ctx.decide(self.pos >= self.kf.size):
